@@ -116,11 +116,12 @@ type gen struct {
 	// keep the stream of random choices they always had): templates that mix '?' and '@name', named arguments from a
 	// struct, clause.NamedExpr, every slot form in Select / Joins / Raw / Exec / Table templates
 	ext   bool
+	stats map[string]int
 	noMix bool // ext: the next templates stay positional (places whose builder knows '?' only)
 }
 
 func newGen(r *core.Rand) *gen {
-	return &gen{r: r, leaves: map[int]*leaf{}, expect: map[int]int{}, maxocc: map[int]int{}}
+	return &gen{r: r, leaves: map[int]*leaf{}, expect: map[int]int{}, maxocc: map[int]int{}, stats: map[string]int{}}
 }
 
 func marker(serial int, col string) string { return fmt.Sprintf("⟦%d:%s⟧", serial, col) }
@@ -328,6 +329,18 @@ func (g *gen) rawCond(root *gorm.DB, depth int) cond {
 	n := g.r.Range(1, 3)
 	for i := 0; i < n; i++ {
 		col := g.kcol()
+		if g.ext && g.r.Chance(1, 12) {
+			// an argument without a value: untyped nil, nil pointers (to a plain type, to a driver.Valuer, to a
+			// gorm.Valuer), invalid Null wrappers - one placeholder, one bound NULL each (no marker: count rules only)
+			var np *string
+			var ni *int64
+			var nc *CustomVal
+			var ng *GValuer
+			parts = append(parts, col+" = ?")
+			args = append(args, core.Pick(g.r, []interface{}{nil, np, ni, nc, ng, sql.NullString{}, sql.NullInt64{}}))
+			g.n++
+			continue
+		}
 		switch g.r.Intn(9) {
 		case 0, 1, 2:
 			l := g.newLeaf(col, "")
@@ -480,6 +493,11 @@ func (g *gen) mixNamed(q string, args []interface{}) (string, []interface{}) {
 	if len(m) > 0 {
 		items = append(items, m)
 	}
+	if len(pos) > 0 {
+		g.stats["templates_mixing_named_and_positional"]++
+	} else {
+		g.stats["templates_turned_named"]++
+	}
 	out := append([]interface{}{}, pos...)
 	for _, it := range items {
 		at := g.r.Intn(len(out) + 1)
@@ -490,6 +508,11 @@ func (g *gen) mixNamed(q string, args []interface{}) (string, []interface{}) {
 	return sb.String(), out
 }
 
+func descArg(a interface{}) string {
+	d := descArgs([]interface{}{a})
+	return d[1 : len(d)-1]
+}
+
 func descArgs(args []interface{}) string {
 	parts := make([]string, len(args))
 	for i, a := range args {
@@ -497,11 +520,11 @@ func descArgs(args []interface{}) string {
 		case *gorm.DB:
 			parts[i] = "<sub-query>"
 		case sql.NamedArg:
-			parts[i] = fmt.Sprintf("sql.Named(%q, %s)", x.Name, strings.Trim(descArgs([]interface{}{x.Value}), "[]"))
+			parts[i] = fmt.Sprintf("sql.Named(%q, %s)", x.Name, descArg(x.Value))
 		case map[string]interface{}:
 			var kv []string
 			for k, v := range x {
-				kv = append(kv, fmt.Sprintf("%q: %s", k, strings.Trim(descArgs([]interface{}{v}), "[]")))
+				kv = append(kv, fmt.Sprintf("%q: %s", k, descArg(v)))
 			}
 			sort.Strings(kv)
 			parts[i] = "map[string]interface{}{" + strings.Join(kv, ", ") + "}"
@@ -514,6 +537,8 @@ func descArgs(args []interface{}) string {
 		case *int64:
 			if x != nil {
 				parts[i] = fmt.Sprintf("&%d", *x)
+			} else {
+				parts[i] = "(*int64)(nil)"
 			}
 		default:
 			parts[i] = fmt.Sprintf("%#v", a)
